@@ -129,7 +129,7 @@ rx("m18c", "C18", "conf/Coercers.go", r"convVal, err := strconv\.Atoi\(v\)\n\t\t
 rx("m18d", "C18", "conf/Coercers.go", r"if !\(t >= math\.MinInt && t < -math\.MinInt\) \{", "if t < math.MinInt || t >= -math.MinInt {", "guarded-convert", "NaN satisfies the negated comparisons")
 rx("m18z", "C18", "conf/Coercers.go", r"(failed to coerce string int: %v\", err\)\n\t\t\t\}\n)\t\t\treturn convVal, nil", "${1}\t\t\treturn convVal * 1000, nil", "parsed-arithmetic", "a parsed number multiplied without a bound")
 # ---- C19
-rx("m19a", "C19", "slices.go", r"\t\t\tdef := reflect\.ValueOf\(v\.defaultVal\)\n(?s:.*?)refVal\.Set\(cp\)", "\t\t\trefVal.Set(reflect.ValueOf(v.defaultVal))", "default-not-aliased")
+rx("m19a", "C19", "slices.go", r"\t\t\tdef := p\.DeepCopyValue\(reflect\.ValueOf\(v\.defaultVal\)\)\n(?s:.*?)refVal\.Set\(cp\)", "\t\t\trefVal.Set(reflect.ValueOf(v.defaultVal))", "default-not-aliased")
 rx("m19b", "C19", "zogSchema.go", r"\t\t\t\*destPtr = \*defaultVal\n", "\t\t\tdestPtr = defaultVal\n", "no-schema-or-input-writes")
 rx("m19c", "C19", "boolean.go", r"(func \(v \*BoolSchema\[T\]\) validate\(ctx \*p\.SchemaCtx\) \{\n)", "${1}\t*(ctx.ValPtr.(*T)) = T(false)\n", "validate-write-sites")
 rx("m19d", "C19", "slices.go", r"def := p\.DeepCopyValue\(reflect\.ValueOf\(v\.defaultVal\)\)", "def := reflect.ValueOf(v.defaultVal)", "default-not-aliased", "F27 reverted: the default copied one level deep")
@@ -141,8 +141,7 @@ rx("m20d", "C20", "string.go", r"strings\.HasSuffix\(string\(\*val\), string\(s\
 rx("m20e", "C20", "slices.go", r"return rv\.Len\(\) <= n", "return rv.Len() < n", "predicate")
 rx("m20f", "C20", "string.go", r"\{0,61\}\[a-zA-Z0-9\]\)\?\(\?:", "{0,62}[a-zA-Z0-9])?(?:", "regexp-language", "e-mail label length bound off by one")
 rx("m20g", "C20", "string.go", r"\[0-9a-fA-F\]\{12\}\$`", "[0-9a-fA-F]{12}`", "regexp-language", "UUID pattern loses its end anchor")
-rx("m15z", "C15", "parsers/zjson/parseJson.go", r"var m map\[string\]any\n", "var m any\n", "decode-failure", "decode into any: every JSON document is accepted")
-rx("m14z", "C14", "zenv/zenv.go", r"return strings\.TrimSpace\(os\.Getenv\(key\)\)", "return strings.ToLower(strings.TrimSpace(os.Getenv(key)))", "env-leaf-is-trimmed-value")
+rx("m14y", "C14", "zenv/zenv.go", r"return strings\.TrimSpace\(os\.Getenv\(key\)\)", "return strings.ToLower(strings.TrimSpace(os.Getenv(key)))", "env-leaf-is-trimmed-value")
 rx("m11z", "C11", "internals/contexts.go", r"(func \(c \*ExecCtx\) Get\(key string\) any \{\n)", "${1}\tif key == \"\" {\n\t\treturn c.Fmter\n\t}\n", "ctx-value-last-set-wins")
 
 
